@@ -1,5 +1,6 @@
 pub mod c01;
 pub mod c04;
+pub mod c06;
 pub mod c11;
 pub mod c12;
 pub mod c14;
@@ -24,6 +25,7 @@ pub fn run(a: &Args) -> Result<ShardOut, String> {
     match a.prop.as_str() {
         "C01" => Ok(c01::run(a)),
         "C20" => Ok(c20::run(a)),
+        "C06" => Ok(c06::run(a)),
         "C11" => Ok(c11::run(a)),
         "C12" => Ok(c12::run(a)),
         "C14" => Ok(c14::run(a)),
